@@ -5,10 +5,10 @@
   128 set words × 7 start days × all 128 front/back schedules).  Infinite parts (all integers, all
   byte strings, all set words for the Boolean laws): case analysis, `omega`, `Nat.testBit_*`.
 -/
-import Chrono.Proofs.WeekdayL
+import Chrono.Proofs.WeekdayConvL
 
 namespace Chrono.Props.C19
-open Chrono Chrono.M Chrono.Spec Chrono.Proofs
+open Chrono Chrono.M Chrono.Spec Chrono.Proofs Chrono.Proofs.WeekdayConv
 
 /-! ## cycles -/
 
@@ -396,5 +396,497 @@ theorem iter_interleaved_spec (sched : List Bool) (s : Nat) (start : Weekday) (h
 /-- non-vacuity: {Tue, Thu, Sun} iterated from Wednesday -/
 example : forward 74 Weekday.wed = [Weekday.thu, Weekday.sun, Weekday.tue] ∧
     WeekdaySet.from_list [Weekday.tue, Weekday.thu, Weekday.sun] = 74 := by decide
+
+/-! # Audit gaps (audit/C19.md), closed 2026-09-30 -/
+
+/-! ## G1: the names, written out literally (no extracted table on the right-hand side) -/
+
+/-- the short/long names the parsing theorems speak about are the English names, and `Display` is the
+capitalised abbreviation: a misspelt suffix or name in the source fails here -/
+theorem weekday_long_names_literal : ∀ w ∈ Weekday.all,
+    weekdayLong w = weekdayLongLit w ∧ weekdayShort w = (weekdayLongLit w).take 3 ∧
+    w.display = capitalize (weekdayShortLit w) := by decide
+
+theorem month_long_names_literal : ∀ m ∈ Month.all,
+    monthLong m = monthLongLit m ∧ monthShort m = (monthLongLit m).take 3 ∧
+    m.name = capitalize (monthLongLit m) := by decide
+
+/-- `weekday_parse_iff` against the literal names: for every byte string -/
+theorem weekday_parse_iff_literal (s : List Nat) (w : Weekday) :
+    Weekday.parse s = some w ↔ (lowerS s = weekdayShortLit w ∨ lowerS s = weekdayLongLit w) := by
+  obtain ⟨h1, h2, _⟩ := weekday_long_names_literal w (weekday_all_complete w)
+  rw [weekday_parse_iff, h1, h2]; rfl
+
+theorem month_parse_iff_literal (s : List Nat) (m : Month) :
+    Month.parse s = some m ↔ (lowerS s = monthShortLit m ∨ lowerS s = monthLongLit m) := by
+  obtain ⟨h1, h2, _⟩ := month_long_names_literal m (month_all_complete m)
+  rw [month_parse_iff, h1, h2]; rfl
+
+/-- non-vacuity: the literal names are what one expects, and are accepted -/
+example : weekdayLongLit .wed = [119, 101, 100, 110, 101, 115, 100, 97, 121] ∧
+    Weekday.parse (asciiBytes "WEDNESDAY") = some .wed ∧ Weekday.parse (asciiBytes "wednseday") = none ∧
+    capitalize (monthLongLit .sep) = asciiBytes "September" := by decide
+
+/-! ## G2: one fact per separately written conversion table
+
+`Conv.*` (Model/WeekdayConv.lean) are lookups in the tables that tools/extractors/wdconv.py reads from
+src/weekday.rs and src/month.rs on every run.  Each `…_table_ok` below speaks about ONE table of the
+source; each `…_iff` is derived from its own table only. -/
+
+/-- the declared discriminants are the model's `toNat` -/
+theorem enum_discriminants_ok :
+    Extracted.WEEKDAY_ENUM = [("Mon", 0), ("Tue", 1), ("Wed", 2), ("Thu", 3), ("Fri", 4), ("Sat", 5), ("Sun", 6)] ∧
+    Extracted.MONTH_ENUM = [("January", 0), ("February", 1), ("March", 2), ("April", 3), ("May", 4),
+      ("June", 5), ("July", 6), ("August", 7), ("September", 8), ("October", 9), ("November", 10),
+      ("December", 11)] ∧
+    Extracted.WEEKDAY_ENUM.map Prod.snd = Weekday.all.map Weekday.toNat ∧
+    Extracted.MONTH_ENUM.map Prod.snd = Month.all.map Month.toNat := ⟨rfl, rfl, rfl, rfl⟩
+
+theorem weekday_tryfrom_u8_table_ok :
+    Extracted.WEEKDAY_TRYFROM_U8_ARMS = Weekday.all.map (fun w => ((w.toNat : Int), w.toNat)) ∧
+    Extracted.WEEKDAY_TRYFROM_U8_DEFAULT = none := by decide
+
+theorem weekday_from_i64_table_ok :
+    Extracted.WEEKDAY_FROM_I64_ARMS = Weekday.all.map (fun w => ((w.toNat : Int), w.toNat)) ∧
+    Extracted.WEEKDAY_FROM_I64_DEFAULT = none := by decide
+
+theorem weekday_from_u64_table_ok :
+    Extracted.WEEKDAY_FROM_U64_ARMS = Weekday.all.map (fun w => ((w.toNat : Int), w.toNat)) ∧
+    Extracted.WEEKDAY_FROM_U64_DEFAULT = none := by decide
+
+theorem month_tryfrom_u8_table_ok :
+    Extracted.MONTH_TRYFROM_U8_ARMS = Month.all.map (fun m => ((m.number_from_month : Int), m.toNat)) ∧
+    Extracted.MONTH_TRYFROM_U8_DEFAULT = none := by decide
+
+theorem month_from_u32_table_ok :
+    Extracted.MONTH_FROM_U32_ARMS = Month.all.map (fun m => ((m.number_from_month : Int), m.toNat)) ∧
+    Extracted.MONTH_FROM_U32_DEFAULT = none := by decide
+
+/-- `Month::from_u64` / `from_i64` convert with `u32::try_from(n).ok()?` (not `n as u32`) -/
+theorem month_forwarding_ok :
+    Extracted.MONTH_FROM_U64_VIA = 0 ∧ Extracted.MONTH_FROM_I64_VIA = 0 := by decide
+
+/-- which `FromPrimitive` methods the impls write themselves; every other method is the num_traits
+default that `M.Conv.FromPrimitive` models -/
+theorem fromprimitive_overrides_ok :
+    Extracted.WEEKDAY_FROMPRIMITIVE_OVERRIDES = ["from_i64", "from_u64"] ∧
+    Extracted.MONTH_FROMPRIMITIVE_OVERRIDES = ["from_u64", "from_i64", "from_u32"] := ⟨rfl, rfl⟩
+
+theorem weekday_try_from_u8_iff (n : Int) (w : Weekday) :
+    Conv.Weekday.try_from_u8 n = some w ↔ n = w.toNat := by
+  unfold Conv.Weekday.try_from_u8
+  rw [weekday_tryfrom_u8_table_ok.2]
+  exact weekday_table_iff _ weekday_tryfrom_u8_table_ok.1 n w
+
+theorem weekday_from_i64_iff (n : Int) (w : Weekday) :
+    Conv.Weekday.from_i64 n = some w ↔ n = w.toNat := by
+  unfold Conv.Weekday.from_i64
+  rw [weekday_from_i64_table_ok.2]
+  exact weekday_table_iff _ weekday_from_i64_table_ok.1 n w
+
+theorem weekday_from_u64_iff (n : Int) (w : Weekday) :
+    Conv.Weekday.from_u64 n = some w ↔ n = w.toNat := by
+  unfold Conv.Weekday.from_u64
+  rw [weekday_from_u64_table_ok.2]
+  exact weekday_table_iff _ weekday_from_u64_table_ok.1 n w
+
+/-- `from_u32` is num_traits' default (through `from_u64`), `from_i32` through `from_i64` -/
+theorem weekday_from_u32_i32_iff (n : Int) (w : Weekday) :
+    (Conv.Weekday.from_u32 n = some w ↔ n = w.toNat) ∧
+    (Conv.Weekday.from_i32 n = some w ↔ n = w.toNat) :=
+  ⟨weekday_from_u64_iff n w, weekday_from_i64_iff n w⟩
+
+theorem month_try_from_u8_iff (n : Int) (m : Month) :
+    Conv.Month.try_from_u8 n = some m ↔ n = m.number_from_month := by
+  unfold Conv.Month.try_from_u8
+  rw [month_tryfrom_u8_table_ok.2]
+  exact month_table_iff _ month_tryfrom_u8_table_ok.1 n m
+
+theorem month_from_u32_table_iff (n : Int) (m : Month) :
+    Conv.Month.from_u32 n = some m ↔ n = m.number_from_month := by
+  unfold Conv.Month.from_u32
+  rw [month_from_u32_table_ok.2]
+  exact month_table_iff _ month_from_u32_table_ok.1 n m
+
+theorem month_number_inU32 (m : Month) : inU32 (m.number_from_month : Int) = true := by
+  cases m <;> decide
+
+theorem month_from_u64_iff (n : Int) (m : Month) :
+    Conv.Month.from_u64 n = some m ↔ n = m.number_from_month := by
+  unfold Conv.Month.from_u64
+  rw [month_forwarding_ok.1]
+  exact via_checked_iff _ n _ m (month_from_u32_table_iff n m) (month_number_inU32 m)
+
+theorem month_from_i64_iff (n : Int) (m : Month) :
+    Conv.Month.from_i64 n = some m ↔ n = m.number_from_month := by
+  unfold Conv.Month.from_i64
+  rw [month_forwarding_ok.2]
+  exact via_checked_iff _ n _ m (month_from_u32_table_iff n m) (month_number_inU32 m)
+
+/-- the statement of `weekday_from_int_iff` / `month_from_u32_iff` / `month_from_u64_i64_iff` on the
+table-driven entry points: every conjunct is a separate fact about its own piece of source -/
+theorem conv_from_int_iff (n : Int) (w : Weekday) (m : Month) :
+    (Conv.Weekday.try_from_u8 n = some w ↔ n = w.toNat) ∧
+    (Conv.Weekday.from_i64 n = some w ↔ n = w.toNat) ∧
+    (Conv.Weekday.from_u64 n = some w ↔ n = w.toNat) ∧
+    (Conv.Weekday.from_u32 n = some w ↔ n = w.toNat) ∧
+    (Conv.Weekday.from_i32 n = some w ↔ n = w.toNat) ∧
+    (Conv.Month.try_from_u8 n = some m ↔ n = m.number_from_month) ∧
+    (Conv.Month.from_u32 n = some m ↔ n = m.number_from_month) ∧
+    (Conv.Month.from_u64 n = some m ↔ n = m.number_from_month) ∧
+    (Conv.Month.from_i64 n = some m ↔ n = m.number_from_month) ∧
+    (Conv.Month.from_i32 n = some m ↔ n = m.number_from_month) :=
+  ⟨weekday_try_from_u8_iff n w, weekday_from_i64_iff n w, weekday_from_u64_iff n w,
+   (weekday_from_u32_i32_iff n w).1, (weekday_from_u32_i32_iff n w).2,
+   month_try_from_u8_iff n m, month_from_u32_table_iff n m, month_from_u64_iff n m,
+   month_from_i64_iff n m, month_from_i64_iff n m⟩
+
+/-- the hand-written tables of Model/Weekday.lean (used by other models, e.g.
+`Date.num_days_in_month`) are the extracted ones, for every integer -/
+theorem conv_eq_model (n : Int) :
+    Conv.Weekday.try_from_u8 n = Weekday.try_from_u8 n ∧ Conv.Weekday.from_i64 n = Weekday.from_i64 n ∧
+    Conv.Weekday.from_u64 n = Weekday.from_u64 n ∧ Conv.Weekday.from_u32 n = Weekday.from_u32 n ∧
+    Conv.Weekday.from_i32 n = Weekday.from_i32 n ∧
+    Conv.Month.try_from_u8 n = Month.try_from_u8 n ∧ Conv.Month.from_u32 n = Month.from_u32 n ∧
+    Conv.Month.from_u64 n = Month.from_u64 n ∧ Conv.Month.from_i64 n = Month.from_i64 n ∧
+    Conv.Month.from_i32 n = Month.from_i32 n := by
+  have ext : ∀ {α : Type} (x y : Option α), (∀ a, x = some a ↔ y = some a) → x = y := by
+    intro α x y h
+    cases x with
+    | some a => exact ((h a).mp rfl).symm
+    | none =>
+      cases y with
+      | none => rfl
+      | some b => exact (h b).mpr rfl
+  have hw := fun w => weekday_from_int_iff n w
+  have hm := fun m => month_from_u32_iff n m
+  have hm' := fun m => month_from_u64_i64_iff n m
+  refine ⟨ext _ _ fun w => ?_, ext _ _ fun w => ?_, ext _ _ fun w => ?_, ext _ _ fun w => ?_,
+    ext _ _ fun w => ?_, ext _ _ fun m => ?_, ext _ _ fun m => ?_, ext _ _ fun m => ?_,
+    ext _ _ fun m => ?_, ext _ _ fun m => ?_⟩
+  · rw [weekday_try_from_u8_iff, (hw w).1]
+  · rw [weekday_from_i64_iff, (hw w).2.1]
+  · rw [weekday_from_u64_iff, (hw w).2.2.1]
+  · rw [(weekday_from_u32_i32_iff n w).1, (hw w).2.2.2.1]
+  · rw [(weekday_from_u32_i32_iff n w).2, (hw w).2.2.2.2]
+  · rw [month_try_from_u8_iff, (hm m).1]
+  · rw [month_from_u32_table_iff, (hm m).2]
+  · rw [month_from_u64_iff, (hm' m).1]
+  · rw [month_from_i64_iff, (hm' m).2.1]
+  · exact (month_from_i64_iff n m).trans (hm' m).2.2.symm
+
+/-- non-vacuity, and what the wrapping cast would have done: with `VIA = 1` the same lookup accepts
+`2^32 + 1` -/
+example : Conv.Weekday.from_u64 6 = some .sun ∧ Conv.Weekday.try_from_u8 7 = none ∧
+    Conv.Month.from_i64 12 = some .dec ∧ Conv.Month.from_u64 (4294967296 + 1) = none ∧
+    (Conv.viaU32 1 (4294967296 + 1)).bind Conv.Month.from_u32 = some .jan := by decide
+
+/-! ## G4: every other `FromPrimitive` entry point (num_traits' provided methods)
+
+Floats are outside the quantifier ("all integers of each accepted numeric type"): `from_f32` /
+`from_f64` are num_traits defaults that truncate (`n.to_i64()`), so e.g. `Weekday::from_f64(0.5)` is
+`Some(Mon)`; nothing is claimed about them. -/
+
+theorem weekday_from_prim_iff (ty : Conv.PrimTy) (n : Int) (w : Weekday) :
+    Conv.Weekday.fromPrim ty n = some w ↔ n = w.toNat := by
+  have hi : inI64 (w.toNat : Int) = true := by cases w <;> decide
+  have hu : inU64 (w.toNat : Int) = true := by cases w <;> decide
+  cases ty
+  case isize | i128 => exact to_i64_bind_iff _ n _ w (weekday_from_i64_iff n w) hi
+  case usize | u128 => exact to_u64_bind_iff _ n _ w (weekday_from_u64_iff n w) hu
+  case i8 | i16 | i32 | i64 => exact weekday_from_i64_iff n w
+  case u8 | u16 | u32 | u64 => exact weekday_from_u64_iff n w
+
+theorem month_from_prim_iff (ty : Conv.PrimTy) (n : Int) (m : Month) :
+    Conv.Month.fromPrim ty n = some m ↔ n = m.number_from_month := by
+  have hi : inI64 (m.number_from_month : Int) = true := by cases m <;> decide
+  have hu : inU64 (m.number_from_month : Int) = true := by cases m <;> decide
+  cases ty
+  case isize | i128 => exact to_i64_bind_iff _ n _ m (month_from_i64_iff n m) hi
+  case usize | u128 => exact to_u64_bind_iff _ n _ m (month_from_u64_iff n m) hu
+  case i8 | i16 | i32 | i64 => exact month_from_i64_iff n m
+  case u8 | u16 | u64 => exact month_from_u64_iff n m
+  case u32 => exact month_from_u32_table_iff n m
+
+/-- numbering functions and numeric conversions are mutually inverse, through every entry point:
+converting the number of a value gives the value back, and whatever is accepted is the number of
+the result (so every other integer is rejected) -/
+theorem conv_numbering_inverse (ty : Conv.PrimTy) (w : Weekday) (m : Month) :
+    Conv.Weekday.fromPrim ty w.num_days_from_monday = some w ∧
+    Conv.Weekday.try_from_u8 w.num_days_from_monday = some w ∧
+    Conv.Month.fromPrim ty m.number_from_month = some m ∧
+    Conv.Month.try_from_u8 m.number_from_month = some m ∧
+    (∀ n : Int, Conv.Weekday.fromPrim ty n = some w ∨ Conv.Weekday.try_from_u8 n = some w →
+      n = w.num_days_from_monday) ∧
+    (∀ n : Int, Conv.Month.fromPrim ty n = some m ∨ Conv.Month.try_from_u8 n = some m →
+      n = m.number_from_month) := by
+  have hn := (weekday_numbering w).1
+  refine ⟨?_, ?_, ?_, ?_, ?_, ?_⟩
+  · rw [hn]; exact (weekday_from_prim_iff ty _ w).mpr rfl
+  · rw [hn]; exact (weekday_try_from_u8_iff _ w).mpr rfl
+  · exact (month_from_prim_iff ty _ m).mpr rfl
+  · exact (month_try_from_u8_iff _ m).mpr rfl
+  · intro n h
+    rw [hn]
+    rcases h with h | h
+    · exact (weekday_from_prim_iff ty n w).mp h
+    · exact (weekday_try_from_u8_iff n w).mp h
+  · intro n h
+    rcases h with h | h
+    · exact (month_from_prim_iff ty n m).mp h
+    · exact (month_try_from_u8_iff n m).mp h
+
+/-- non-vacuity: extremes of the wide types are rejected, the numbers accepted -/
+example : Conv.Weekday.fromPrim .u128 340282366920938463463374607431768211455 = none ∧
+    Conv.Weekday.fromPrim .i128 I128_MIN = none ∧ Conv.Weekday.fromPrim .i8 3 = some .thu ∧
+    Conv.Month.fromPrim .usize 18446744073709551616 = none ∧ Conv.Month.fromPrim .u16 12 = some .dec ∧
+    Conv.Month.fromPrim .isize (-4294967295) = none := by decide
+
+/-! ## G3: building a set (`from_array`, `FromIterator`) -/
+
+/-- `from_iter` and `from_array` are the fold `from_list_spec` speaks about: exactly the members of
+the sequence, whatever its length -/
+theorem collect_spec (ds : List Weekday) (e : Weekday) :
+    WeekdaySet.from_iter ds = WeekdaySet.from_list ds ∧
+    WeekdaySet.from_array ds = WeekdaySet.from_list ds ∧
+    WeekdaySet.contains (WeekdaySet.from_iter ds) e = decide (e ∈ ds) ∧
+    WeekdaySet.contains (WeekdaySet.from_array ds) e = decide (e ∈ ds) ∧
+    WeekdaySet.from_iter ds < 128 ∧ WeekdaySet.from_array ds < 128 := by
+  have h1 : WeekdaySet.from_iter ds = WeekdaySet.from_list ds := by
+    unfold WeekdaySet.from_iter WeekdaySet.from_list
+    rw [List.foldl_map]; rfl
+  have h2 : WeekdaySet.from_array ds = WeekdaySet.from_list ds := rfl
+  obtain ⟨hm, hlt⟩ := from_list_spec ds e
+  have hc := (contains_is_mem _ hlt e (weekday_all_complete e)).1
+  rw [h1, h2]
+  exact ⟨rfl, rfl, by rw [hc, hm], by rw [hc, hm], hlt, hlt⟩
+
+example : WeekdaySet.from_iter [.sun, .tue, .sun, .thu, .tue, .tue, .tue, .tue, .sun] = 74 ∧
+    WeekdaySet.from_array [] = 0 := by decide
+
+/-! ## G5: the set laws as observed through `contains` -/
+
+/-- `contains` is `mem` on every word with the invariant -/
+theorem contains_eq_mem (s : Nat) (hs : s < 128) (d : Weekday) : WeekdaySet.contains s d = mem s d :=
+  (contains_is_mem s hs d (weekday_all_complete d)).1
+
+theorem union_contains (a b : Nat) (ha : a < 128) (hb : b < 128) (d : Weekday) :
+    WeekdaySet.contains (WeekdaySet.union a b) d = (WeekdaySet.contains a d || WeekdaySet.contains b d) := by
+  rw [contains_eq_mem _ (ops_keep_invariant a b ha hb d).1, contains_eq_mem a ha, contains_eq_mem b hb]
+  exact (union_inter_xor_spec a b d).1
+
+theorem intersection_contains (a b : Nat) (ha : a < 128) (hb : b < 128) (d : Weekday) :
+    WeekdaySet.contains (WeekdaySet.intersection a b) d =
+      (WeekdaySet.contains a d && WeekdaySet.contains b d) := by
+  rw [contains_eq_mem _ (ops_keep_invariant a b ha hb d).2.1, contains_eq_mem a ha, contains_eq_mem b hb]
+  exact (union_inter_xor_spec a b d).2.1
+
+theorem symmetric_difference_contains (a b : Nat) (ha : a < 128) (hb : b < 128) (d : Weekday) :
+    WeekdaySet.contains (WeekdaySet.symmetric_difference a b) d =
+      (WeekdaySet.contains a d ^^ WeekdaySet.contains b d) := by
+  rw [contains_eq_mem _ (ops_keep_invariant a b ha hb d).2.2.1, contains_eq_mem a ha, contains_eq_mem b hb]
+  exact (union_inter_xor_spec a b d).2.2
+
+theorem difference_contains (a b : Nat) (ha : a < 128) (hb : b < 128) (d : Weekday) :
+    WeekdaySet.contains (WeekdaySet.difference a b) d =
+      (WeekdaySet.contains a d && !WeekdaySet.contains b d) := by
+  rw [contains_eq_mem _ (ops_keep_invariant a b ha hb d).2.2.2.1, contains_eq_mem a ha, contains_eq_mem b hb]
+  exact difference_spec a b hb d
+
+theorem insert_remove_contains (s : Nat) (hs : s < 128) (d e : Weekday) :
+    WeekdaySet.contains (WeekdaySet.insert s d).1 e = (WeekdaySet.contains s e || decide (e = d)) ∧
+    (WeekdaySet.insert s d).2 = !WeekdaySet.contains s d ∧
+    WeekdaySet.contains (WeekdaySet.remove s d).1 e = (WeekdaySet.contains s e && !decide (e = d)) ∧
+    (WeekdaySet.remove s d).2 = WeekdaySet.contains s d := by
+  obtain ⟨h1, h2, h3, h4⟩ := insert_remove_spec s hs d (weekday_all_complete d) e (weekday_all_complete e)
+  have hk := ops_keep_invariant s s hs hs d
+  rw [contains_eq_mem _ hk.2.2.2.2.1, contains_eq_mem _ hk.2.2.2.2.2, contains_eq_mem s hs,
+    contains_eq_mem s hs]
+  exact ⟨h1, h2, h3, h4⟩
+
+theorem single_contains (d e : Weekday) :
+    WeekdaySet.contains (WeekdaySet.single d) e = decide (e = d) := by
+  cases d <;> cases e <;> decide
+
+theorem subset_contains (a b : Nat) (ha : a < 128) (hb : b < 128) :
+    WeekdaySet.is_subset a b = true ↔
+      ∀ d, WeekdaySet.contains a d = true → WeekdaySet.contains b d = true := by
+  rw [subset_spec a ha b hb, List.all_eq_true]
+  constructor
+  · intro h d hd
+    have := h d (weekday_all_complete d)
+    rw [contains_eq_mem a ha] at hd
+    rw [contains_eq_mem b hb]
+    rw [hd] at this
+    simpa using this
+  · intro h d _
+    have := h d
+    rw [contains_eq_mem a ha, contains_eq_mem b hb] at this
+    cases hm : mem a d with
+    | false => rfl
+    | true => rw [this hm]; rfl
+
+/-- set equality (`==`, hashing, ordering act on the word) is having the same members -/
+theorem eq_iff_contains (a b : Nat) (ha : a < 128) (hb : b < 128) :
+    a = b ↔ ∀ d, WeekdaySet.contains a d = WeekdaySet.contains b d := by
+  constructor
+  · intro h d; rw [h]
+  · intro h
+    apply extensional a ha b hb
+    intro d _
+    rw [← contains_eq_mem a ha, ← contains_eq_mem b hb]
+    exact h d
+
+/-- first / last / len through `contains`: `first` is the earliest weekday (Monday first) that is
+contained, `last` the latest, `len` the number of contained weekdays -/
+theorem len_first_last_contains (s : Nat) (hs : s < 128) :
+    WeekdaySet.len s = (Weekday.all.filter (WeekdaySet.contains s)).length ∧
+    WeekdaySet.first s = Weekday.all.find? (WeekdaySet.contains s) ∧
+    WeekdaySet.last s = Weekday.all.reverse.find? (WeekdaySet.contains s) := by
+  have hf : WeekdaySet.contains s = mem s := funext (contains_eq_mem s hs)
+  obtain ⟨h1, _, h3, h4, _⟩ := len_first_last_spec s hs
+  rw [hf]
+  exact ⟨h1, h3, h4⟩
+
+example : WeekdaySet.contains (WeekdaySet.difference 74 66) .thu = true ∧
+    WeekdaySet.contains (WeekdaySet.difference 74 66) .sun = false := by decide
+
+/-! ## G6: `EMPTY`, `ALL`, the `single` tables, `ExactSizeIterator::len`, `FusedIterator` -/
+
+/-- the declared constants: no weekday / every weekday -/
+theorem empty_all_spec :
+    WeekdaySet.EMPTY < 128 ∧ WeekdaySet.ALL < 128 ∧
+    (∀ d, WeekdaySet.contains WeekdaySet.EMPTY d = false ∧ WeekdaySet.contains WeekdaySet.ALL d = true) ∧
+    WeekdaySet.len WeekdaySet.EMPTY = 0 ∧ WeekdaySet.len WeekdaySet.ALL = 7 ∧
+    WeekdaySet.is_empty WeekdaySet.EMPTY = true ∧
+    (∀ s < 128, WeekdaySet.is_subset WeekdaySet.EMPTY s = true ∧
+      WeekdaySet.is_subset s WeekdaySet.ALL = true) := by
+  refine ⟨by decide, by decide, fun d => by cases d <;> decide, by decide, by decide, by decide, ?_⟩
+  decide +kernel
+
+/-- the `single` / `single_day` tables of the source are the hand-written ones of the model -/
+theorem set_tables_ok :
+    Extracted.WEEKDAYSET_SINGLE_ARMS = Weekday.all.map (fun d => (d.toNat, WeekdaySet.single d)) ∧
+    Extracted.WEEKDAYSET_SINGLE_DAY_ARMS = Weekday.all.map (fun d => (WeekdaySet.single d, d.toNat)) ∧
+    (∀ s < 256, WeekdaySet.single_day s =
+      ((Extracted.WEEKDAYSET_SINGLE_DAY_ARMS.find? (fun p => p.1 == s)).bind
+        (fun p => Weekday.ofDisc p.2))) := by
+  refine ⟨by decide, by decide, ?_⟩
+  decide +kernel
+
+/-- `ExactSizeIterator::len` after any schedule of front/back pulls: the number of members minus
+the number of items handed out -/
+theorem iter_len_spec (sched : List Bool) (s : Nat) (start : Weekday) (hs : s < 128) :
+    WeekdaySet.Iter.len (WeekdaySet.iter s start) = card s ∧
+    ∃ fs ks s', WeekdaySet.runSchedule sched (WeekdaySet.iter s start) = .ok (fs, ks, ⟨s', start⟩) ∧
+      WeekdaySet.Iter.len ⟨s', start⟩ + fs.length + ks.length = card s := by
+  refine ⟨(len_first_last_spec s hs).1, ?_⟩
+  obtain ⟨fs, ks, s', hr, hs', heq⟩ := iter_interleaved_spec sched s start hs
+  refine ⟨fs, ks, s', hr, ?_⟩
+  have h1 := (iter_spec s hs start (weekday_all_complete start)).2.2
+  have h2 := (iter_spec s' hs' start (weekday_all_complete start)).2.2
+  have h3 := (len_first_last_spec s' hs').1
+  have hl := congrArg List.length heq
+  simp only [List.length_append, List.length_reverse] at hl
+  show WeekdaySet.len s' + fs.length + ks.length = card s
+  omega
+
+/-- fused: once a pull from either end has returned `None`, the iterator is unchanged and every
+further pull from either end returns `None` (for every word, not only those with the invariant) -/
+theorem iter_fused (it it' : WeekdaySet.Iter)
+    (h : it.next = .ok (none, it') ∨ it.next_back = .ok (none, it')) :
+    it' = it ∧ ∀ sched, WeekdaySet.runSchedule sched it = .ok ([], [], it) := by
+  have hh : WeekdaySet.is_empty it.days = true ∧ it' = it := by
+    rcases h with h | h
+    · exact next_none it it' h
+    · exact next_back_none it it' h
+  exact ⟨hh.2, fun sched => empty_runSchedule sched it hh.1⟩
+
+/-- non-vacuity: the empty set's iterator does return `None`; a drained one too -/
+example : (WeekdaySet.iter 0 .wed).next = .ok (none, ⟨0, .wed⟩) ∧
+    WeekdaySet.runSchedule [true, false, true, true, false] (WeekdaySet.iter 74 .wed) =
+      .ok ([.thu, .sun], [.tue], ⟨0, .wed⟩) ∧ WeekdaySet.staysNone 3 ⟨0, .wed⟩ = true := by decide
+
+/-! ## G7: `Display` / `Debug` of a set -/
+
+/-- `Display`: `[`, the members in week order (Monday first) by their `Display` names separated by
+`, `, `]`; the iterator's `expect` cannot fire -/
+theorem set_display_spec : ∀ s < 128, WeekdaySet.display s = .ok (setDisplay s) := by
+  decide +kernel
+
+/-- `Debug`: `WeekdaySet(` + seven characters, Sunday's bit first + `)` -/
+theorem set_debug_spec : ∀ s < 128, WeekdaySet.debug s = setDebug s := by
+  decide +kernel
+
+/-- both text forms can be read back -/
+theorem set_text_inverse : ∀ s < 128,
+    wordOfDisplay (setDisplay s) = s ∧ wordOfDebug (setDebug s) = s := by
+  decide +kernel
+
+/-- hence both text forms determine the set -/
+theorem set_text_injective (a b : Nat) (ha : a < 128) (hb : b < 128) :
+    (WeekdaySet.display a = WeekdaySet.display b → a = b) ∧
+    (WeekdaySet.debug a = WeekdaySet.debug b → a = b) := by
+  constructor
+  · intro h
+    rw [set_display_spec a ha, set_display_spec b hb] at h
+    injection h with h
+    have := congrArg wordOfDisplay h
+    rwa [(set_text_inverse a ha).1, (set_text_inverse b hb).1] at this
+  · intro h
+    rw [set_debug_spec a ha, set_debug_spec b hb] at h
+    have := congrArg wordOfDebug h
+    rwa [(set_text_inverse a ha).2, (set_text_inverse b hb).2] at this
+
+example : setDisplay 81 = asciiBytes "[Mon, Fri, Sun]" ∧ setDisplay 0 = asciiBytes "[]" ∧
+    setDebug 2 = asciiBytes "WeekdaySet(0000010)" := by decide
+
+/-! ## G8: `Display for Weekday` under format flags (`f.pad`) -/
+
+/-- without flags the bare name; otherwise the name cut to the precision, filled up to the width on
+the side(s) the alignment says (centre: the odd one goes to the right) -/
+theorem weekday_display_fmt_spec (w : Weekday) (width prec : Option Nat) (align : WdFmt.Align) (fill : Nat) :
+    w.display_fmt none none align fill = w.display ∧
+    ∃ pre post, w.display_fmt width prec align fill =
+        List.replicate pre fill ++ w.display.take (prec.getD 3) ++ List.replicate post fill ∧
+      pre + post = width.getD 0 - min 3 (prec.getD 3) ∧
+      (align = .left → pre = 0) ∧ (align = .right → post = 0) ∧
+      (align = .center → pre ≤ post ∧ post ≤ pre + 1) := by
+  refine ⟨rfl, ?_⟩
+  have hl : w.display.length = 3 := by cases w <;> rfl
+  have ht : WdFmt.fmtCut w.display prec = w.display.take (prec.getD 3) := by
+    cases prec with
+    | none => show w.display = w.display.take 3; rw [← hl, List.take_length]
+    | some p => rfl
+  have htl : (w.display.take (prec.getD 3)).length = min 3 (prec.getD 3) := by
+    rw [List.length_take, hl, Nat.min_comm]
+  unfold Weekday.display_fmt WdFmt.fmtPad
+  rw [ht]
+  generalize w.display.take (prec.getD 3) = t at htl
+  have triv : t = List.replicate 0 fill ++ t ++ List.replicate 0 fill := by simp
+  cases width with
+  | none =>
+    exact ⟨0, 0, triv, by simp, fun _ => rfl, fun _ => rfl, fun _ => ⟨Nat.le_refl _, Nat.le_succ _⟩⟩
+  | some wd =>
+    show ∃ pre post, (if t.length < wd then _ else t) = _ ∧ _
+    by_cases hlt : t.length < wd
+    · rw [if_pos hlt]
+      cases align with
+      | left =>
+        exact ⟨0, wd - t.length, by simp, by rw [Option.getD_some]; omega, fun _ => rfl,
+          (fun h => by cases h), (fun h => by cases h)⟩
+      | right =>
+        exact ⟨wd - t.length, 0, by simp, by rw [Option.getD_some]; omega, (fun h => by cases h),
+          fun _ => rfl, (fun h => by cases h)⟩
+      | center =>
+        exact ⟨(wd - t.length) / 2, (wd - t.length + 1) / 2, rfl, by rw [Option.getD_some]; omega,
+          (fun h => by cases h), (fun h => by cases h), fun _ => ⟨by omega, by omega⟩⟩
+    · rw [if_neg hlt]
+      exact ⟨0, 0, triv, by rw [Option.getD_some]; omega, fun _ => rfl, fun _ => rfl,
+        fun _ => ⟨Nat.le_refl _, Nat.le_succ _⟩⟩
+
+example : Weekday.wed.display_fmt (some 6) (some 2) .center 42 = asciiBytes "**We**" ∧
+    Weekday.wed.display_fmt (some 5) none .right 32 = asciiBytes "  Wed" := by decide
+
 
 end Chrono.Props.C19
